@@ -18,6 +18,7 @@ extern "C" void harness() {
   static Pool pool; pool.depth_ = nondet_bool() ? 0 : 1;
   static Edge e, other; static Node o[NOUT], in0;
   e.pool_ = &pool; other.pool_ = &pool;
+  e.vf_phony = nondet_bool();                                  /* phony edges travel through the same bookkeeping (pool slot, jobserver token) */
   e.inputs_.push_back(&in0);
   { int io = nondet_int(); __CPROVER_assume(io >= 0 && io <= NOUT); e.implicit_outs_ = io; }      /* any explicit/implicit split of the outputs */
   for (int i = 0; i < NOUT; i++) { e.outputs_.push_back(&o[i]); o[i].in_edge_ = &e; o[i].dirty_ = nondet_bool(); }
